@@ -203,6 +203,12 @@ impl Profile for StoredHandles {
     fn check(&self, plan: &Plan, rec: &RunRecord, reg: &Reg, cells: &mut Cells) -> Vec<Finding> {
         let mut out = remote::check(rec, reg, &Which { c10: true, c20: true }, cells);
         out.extend(dispatch::check(rec, &all_ops(plan), reg, &DWhich { c02: true, c04: true }, cells));
+        // storing, loading and re-storing handles never takes the chain down
+        for op in &rec.ops {
+            if let Some(p) = op.outcome.foreign_panic() {
+                out.push(Finding::new("C20", "c20.panic", op.idx, format!("an operation that only stores / loads / uses handles panicked: {p}")));
+            }
+        }
         // schema name independence is a pure clause: asserted once per process, as a boot assertion
         static ONCE: std::sync::OnceLock<Vec<(String, String)>> = std::sync::OnceLock::new();
         let names = ONCE.get_or_init(|| rt::registry::all().into_iter().map(|(k, f)| (k.clone(), (f.schema_name)())).collect());
